@@ -9,7 +9,7 @@ from ..engine.flow import TOTAL_BUILTINS, Automaton, Runner, State, violation
 from ..engine.match import Spec, loop_doms, require_return, require_returns_table, residual
 from ..engine.repo import AnalysisError, dotted
 from ..engine.report import Check
-from ..engine.terms import C, Term, show, substitute, subterms
+from ..engine.terms import C, Term, conjuncts, show, substitute, subterms
 from ..engine.walker import Event
 from .common import functions_mentioning, only_called_from, short
 
@@ -317,6 +317,28 @@ def r15_7(ck: Check) -> None:
         ck.violated("R15.7", construct, "the printed amount is not the balance divided by the coin unit: %s" % [show(e.term)[:160] for e in bal], s.fi.loc)
 
 
+def r15_8(ck: Check) -> None:
+    """start-up: an existing wallet file is loaded as it is; only when there is none a new wallet is created, filled and saved at once"""
+    q = "skepticoin.scripts.utils.open_or_init_wallet"
+    s = ck.summ(q, 0)
+    sp = Spec(s, ())
+    exists = sp.term("os.path.isfile('wallet.json')")
+    loads = [e for e in s.events if e.kind == "call" and not e.chain and WC + ".load" in e.targets]
+    gens = [e for e in s.events if e.kind == "call" and not e.chain and WC + ".generate_keys" in e.targets]
+    saves = [e for e in s.events if e.kind == "call" and not e.chain and W + "save_wallet" in e.targets]
+    other = [e for e in s.events if e.kind == "call" and not e.chain and any(t.startswith(WC + ".") and t.split(".")[-1] not in ("load", "empty", "generate_keys")
+                                                                             for t in e.targets)]
+    cs = lambda e: {x for c in e.pc for x in conjuncts(c.term)}   # noqa
+    from ..engine.terms import mk_not
+    construct = "open_or_init_wallet: wallet.json exists -> Wallet.load(it), nothing else; otherwise empty + generate_keys + save_wallet"
+    ok = (len(loads) == 1 and cs(loads[0]) == {exists} and len(gens) == 1 and len(saves) == 1 and cs(gens[0]) == {mk_not(exists)} == cs(saves[0])
+          and gens[0].seq < saves[0].seq and not other)
+    if ok:
+        ck.ok("R15.8", construct, "", s.fi.loc)
+    else:
+        ck.violated("R15.8", construct, "%s" % [e.describe()[:120] for e in loads + gens + saves + other], s.fi.loc)
+
+
 def r15_4(ck: Check) -> None:
     atomic_replace(ck, "R15.4", W + "save_wallet", "'wallet.json'", "at every instant wallet.json is the complete previous or the complete new wallet")
     s = ck.summ(W + "save_wallet", 0)
@@ -369,6 +391,7 @@ def check(ck: Check) -> None:
     ck.run("R15.4", "atomic replace of wallet.json", lambda: r15_4(ck))
     ck.run("R15.6", "a key given back at shutdown is not persisted", lambda: r15_6(ck))
     ck.run("R15.7", "the balance command reports the balance", lambda: r15_7(ck))
+    ck.run("R15.8", "start-up loads the wallet file unchanged", lambda: r15_8(ck))
     ck.run("R15.5", "partition preserved; balance over all keys", lambda: r15_5(ck))
     from .c03 import r03_3, r03_4
     ck.run("R03.4", "per-key balances = unspent outputs paying the key (updater agreement)", lambda: (r03_4(ck), r03_3(ck)))
